@@ -80,4 +80,57 @@ theorem rawArith_int_exact (F : FOps) (op : ArOp) (t : IntTy) (ht : t ∈ IntTy.
   · rw [arithIn_sub_ok F _ hp a b hr]
   · rw [arithIn_mul_ok F _ hp a b hr]
 
+theorem uac_comm (a b : IntTy) (ha : a ∈ IntTy.all) (hb : b ∈ IntTy.all) : IntTy.uac a b = IntTy.uac b a := by
+  rcases all_cases a ha with rfl|rfl|rfl|rfl|rfl|rfl|rfl|rfl <;>
+    rcases all_cases b hb with rfl|rfl|rfl|rfl|rfl|rfl|rfl|rfl <;> decide
+
+theorem uac_mem (a b : IntTy) (ha : a ∈ IntTy.all) (hb : b ∈ IntTy.all) : IntTy.uac a b ∈ IntTy.all := by
+  rcases all_cases a ha with rfl|rfl|rfl|rfl|rfl|rfl|rfl|rfl <;>
+    rcases all_cases b hb with rfl|rfl|rfl|rfl|rfl|rfl|rfl|rfl <;> decide
+
+theorem promote_inRange (t : IntTy) (ht : t ∈ IntTy.all) (x : Int) (h : t.inRange x) : t.promote.inRange x := by
+  have hlo := promote_lo t ht
+  have hhi := promote_hi t ht
+  exact ⟨by have := h.1; omega, by have := h.2; omega⟩
+
+theorem divIn_ok' (p : IntTy) (a b : Int) (hb : b ≠ 0) (h : ¬ (a = p.lo ∧ b = -1)) :
+    divIn p a b = ⟨.ok (Int.tdiv a b), false⟩ := by
+  unfold divIn
+  rw [if_neg hb]
+  have : (p.signed && decide (a = p.lo) && decide (b = -1)) = false := by
+    cases hs : p.signed <;> simp
+    intro h1 h2; exact absurd ⟨h1, h2⟩ h
+  simp [this]
+
+/-- The built-in `/` on two in-range values of the same integral type: defined unless the divisor
+is zero or the operands are (lowest value of the promoted type, -1); the result is the truncated
+quotient, in the promoted type. -/
+theorem rawArith_int_div (F : FOps) (t : IntTy) (ht : t ∈ IntTy.all) (a b : Int)
+    (ha : t.inRange a) (hb : t.inRange b) (hb0 : b ≠ 0) (h : ¬ (a = t.promote.lo ∧ b = -1)) :
+    rawArith F .div (.int t) (.int t) (.int a) (.int b)
+      = ⟨Verdict.ok, some (.val (.int t.promote)), .ok (.int (Int.tdiv a b))⟩ := by
+  have hp := promote_mem t ht
+  have hap := promote_inRange t ht a ha
+  have hbp := promote_inRange t ht b hb
+  have hmod : ¬ (ArOp.div = ArOp.mod) := by decide
+  simp only [rawArith, hmod, false_and, if_false, RepTy.uac, uac_self,
+    convert_int_inRange F t t.promote hp a hap, convert_int_inRange F t t.promote hp b hbp, evBind]
+  simp [arithIn, stepVal, divIn_ok' t.promote a b hb0 h]
+
+theorem modIn_ok' (p : IntTy) (a b : Int) (hb : b ≠ 0) (h : ¬ (a = p.lo ∧ b = -1)) :
+    modIn p a b = ⟨.ok (Int.tmod a b), false⟩ := by
+  unfold modIn
+  rw [if_neg hb]
+  have : (p.signed && decide (a = p.lo) && decide (b = -1)) = false := by
+    cases hs : p.signed <;> simp
+    intro h1 h2; exact absurd ⟨h1, h2⟩ h
+  simp [this]
+
+theorem negIn_ok (p : IntTy) (hp : p ∈ IntTy.all) (a : Int) (h : p.inRange (-a)) :
+    negIn p a = ⟨.ok (-a), false⟩ := by
+  unfold negIn
+  cases hs : p.signed with
+  | true => simp [h]
+  | false => simp [h, wrap_of_inRange p hp _ h]
+
 end Au
